@@ -664,13 +664,27 @@ class ElemEngine:
         g = self.prog.func(p)
         args = {}
         cl = {}
-        for i, x in enumerate(t[2]):
+        targs = list(t[2])
+        ups = {}
+        if g.body.kind == 'closure' and len(targs) == 2:
+            # direct call of a local closure `f(a, b)`: MIR passes (&f, (a, b)); the body sees the tuple untupled and its captures
+            # through the closure value
+            _, ups = self.closure_of(env, targs[0])
+            if ups is None:
+                return top('closure value not read at its call')
+            if tag(targs[1]) == 'agg' and targs[1][1] == 'tuple':
+                targs = [targs[0]] + list(targs[1][3])
+            else:
+                return top('closure call with a non-literal argument tuple')
+        for i, x in enumerate(targs):
             args[i + 1] = self.ev_arg(env, x)
             ck, cu = self.closure_of(env, x)
             if ck is not None:
                 cl[i + 1] = (ck, cu)
-        genv = Env(g, args, {})
+        genv = Env(g, args, ups or {})
         genv.closures.update(cl)
+        if g.body.kind == 'closure' and len(t[2]) == 2:
+            self._inherit_closures(env, t[2][0], genv)
         act = self._active.get(p, 0)
         if act >= 2:
             return top('recursive call of ' + p)
